@@ -259,6 +259,11 @@ func c19History(e *core.Env, r *core.Rand, idx int64) {
 		default:
 			op = c19Op{"set", names[r.Intn(len(names))], r.Intn(nT)}
 		}
+		if op.Kind == "set-write-fault" {
+			if st, serr := os.Stat(cfg); serr != nil || !st.IsDir() {
+				op.Kind = "set" // the config folder does not exist yet (it is klog's to create): no place to plant the fault
+			}
+		}
 		before, _ := os.ReadFile(dbPath)
 		var args []string
 		expectOK := true
